@@ -47,9 +47,9 @@ CHECKS["C07"] = dict(
     design="4/C07")
 
 CHECKS["C04"] = dict(
-    text="Coq theorems about build_execution_plan (the mechanism that decides initial vs deferred placement): the plan is a partition of the grouped field set (permutation), a key stays initial iff its filtered defer-usage set equals the parent set, filtered sets contain no usage with an ancestor in the set, a key with a non-deferred field node is never deferred, one-level reassembly for any key-wise execution function. Real incremental runs (nested/labelled/if:false/overlapping @defer, @stream, defers inside streams) under explored completion orders and early execution on/off are merged by the extracted merge oracle and must equal the implementation's execution with the directives removed (error-free) / be contained in the non-propagating reference with nothing lost (error runs); build_execution_plan is also driven directly against the model",
-    note="theorems are _partial: the incremental executor (delivery groups, streams) is not modelled, so reassembly itself is decided by exploration with the merge oracle; schedules are sampled",
-    technique="Coq proof (execution plan partition) + merge-oracle reassembly check under a controlled event loop",
+    text="Coq theorems. (1) build_execution_plan: the plan is a partition of the grouped field set, a key stays initial iff its filtered defer-usage set equals the parent set, filtered sets contain no usage with an ancestor in the set, a key with a non-deferred field node is never deferred, one-level reassembly. (2) The @defer part of the incremental executor is modelled (Incr/DeferExec.v: collect_fields with parent-linked defer usages, build_execution_plan, execution groups and their sub-executors, nested to any depth, lists, abstract types) on top of C02's specification model. Proved: if the same request is error-free on the base executor, the incremental run is error-free and merging its payloads with the Incr/Merge.v oracle - in the model's order and in EVERY order in which the merge can be carried out - yields that data up to object key order (C04_defer_reassembly_partial); the base run equals Exec/Spec.v's execution of the document with @defer erased, for any errors; disabled (if:false by literal or variable) or absent @defer gives no payload and Spec's answer; a key with a non-deferred occurrence is in the initial data. Tie: type-directed requests with generated @defer placements (labels, if, nested, overlapping, same field deferred and not) against the real experimental_execute_incrementally (initial data incl. key order, pending groups, execution groups, failed groups, merged data, resolver calls). Real incremental runs incl. @stream, defers inside streams, async resolvers under explored completion orders and early execution on/off are merged by the extracted merge oracle and must equal the implementation's execution with the directives removed (error-free) / be contained in the non-propagating reference with nothing lost (error runs)",
+    note='reassembly theorems are _partial: @stream, async resolvers/early execution (only the arrival order of the same payloads is free) and responses with field errors are outside the model; the tie to Spec assumes no fragment was collected both deferred and non-deferred in one selection set (checked equal on those runs); which nested groups are announced and under which id a value arrives is decided by the work queue (C05); schedules are sampled',
+    technique='Coq proof (execution plan partition; executable @defer executor model with nested reassembly for every applicable payload order) + extraction-based correspondence + merge-oracle reassembly check under a controlled event loop',
     design="4/C04")
 
 CHECKS["C20"] = dict(
@@ -121,14 +121,14 @@ CHECKS["C19"] = dict(
 NOT_YET = {}
 
 
-MODELS = {"C01": ["lang", "parser"], "C03": ["errorsalg"], "C04": ["incr"], "C07": ["subscribe", "exec"], "C08": ["lang", "blockstring", "parser"],
+MODELS = {"C01": ["lang", "parser"], "C03": ["errorsalg"], "C04": ["incr", "defer"], "C07": ["subscribe", "exec"], "C08": ["lang", "blockstring", "parser"],
           "C09": ["lang", "parser"], "C10": ["lang"], "C11": ["lang", "visitm"], "C12": ["compose", "rules"], "C14": ["overlap"], "C15": ["coerce"],
           "C16": ["scalars"], "C20": ["schemaval"], "C02": ["exec"], "C13": ["exec"], "C05": ["workqueue"],
           "C06": ["lifecycle"], "C17": ["schemaops"], "C18": ["schemaops"], "C19": ["schemaops"]}
 
 
 # further theorem-only files Properties/<name>.v accounted for by a check (Check.proofs(extra_files=...))
-EXTRA_PROPS = {"C11": ["C11mach"], "C12": ["C12rules"]}
+EXTRA_PROPS = {"C04": ["C04defer"], "C11": ["C11mach"], "C12": ["C12rules"]}
 
 
 def main():
